@@ -58,11 +58,17 @@ def build():
     common.metadata_core(u, props_sanitize=('C08',))
     common.status_decls(u)
     common.status_assumed(u)
-    u.raw('''// BufferSettings as in prelude codec.rs (A-codec-05: sane settings)
-#[derive(Clone, Copy)]
-pub struct BufferSettings { pub buffer_size: usize, pub yield_threshold: usize }
-pub open spec fn sane(b: BufferSettings) -> bool { 0 < b.buffer_size && b.buffer_size <= 0x4000_0000_0000_0000 }
-''')
+    CM = 'tonic/src/codec/mod.rs'
+    u.item(CM, 'struct', 'BufferSettings', derives='Clone, Copy')
+    u.item(CM, 'const', 'DEFAULT_CODEC_BUFFER_SIZE')
+    u.item(CM, 'const', 'DEFAULT_YIELD_THRESHOLD')
+    u.raw('// sane buffer settings (as in prelude codec.rs): a non-zero growth interval that cannot overflow address arithmetic\n'
+          'pub open spec fn sane(b: BufferSettings) -> bool { 0 < b.buffer_size && b.buffer_size <= 0x4000_0000_0000_0000 }')
+    u._emit('impl BufferSettings {'); u._open_header = 'impl BufferSettings {'
+    u.fn(CM, 'new', within='impl BufferSettings', display='BufferSettings::new', ensures=[Clause('S0_the_given_sizes', 'r.buffer_size == buffer_size && r.yield_threshold == yield_threshold')])
+    u.fn(CM, 'default', within='impl Default for BufferSettings', display='BufferSettings::default',
+         ensures=[Clause('S1_the_default_settings_are_sane', 'sane(r) && r.buffer_size == 8192 && r.yield_threshold == 32768')])
+    u.close('}')
     u.item('tonic/src/codec/buffer.rs', 'struct', 'DecodeBuf')
     u.raw('pub struct EncodeBuf<\'a> { pub buf: &\'a mut BytesMut }\n'
           '// the codec-side contracts, verbatim from units encode / decode (there they are assumed of ANY codec)\n'
@@ -103,5 +109,15 @@ pub open spec fn sane(b: BufferSettings) -> bool { 0 < b.buffer_size && b.buffer
     u._emit('impl<U> ProstDecoder<U> {'); u._open_header = 'impl<U> ProstDecoder<U> {'
     u.fn(P, 'buffer_settings', within=hdr, display='ProstDecoder::buffer_settings', ensures=[Clause('D4_the_settings_it_was_made_with', 'r == self.buffer_settings')])
     u.fn(P, 'new', within='impl<U> ProstDecoder<U>', display='ProstDecoder::new', ensures=[Clause('D5_made_with_these_settings', 'r.buffer_settings == buffer_settings')])
+    u.close('}')
+    # the codec object: its halves are made with the default (sane) settings, or with the ones given to raw_*
+    u.item(P, 'struct', 'ProstCodec')
+    u._emit('impl<T: Message, U: Message> ProstCodec<T, U> {'); u._open_header = 'impl<T: Message, U: Message> ProstCodec<T, U> {'
+    q = [lambda t: t.sub_code('R9', r'<Self as Codec>::Encoder', 'ProstEncoder<T>'), lambda t: t.sub_code('R9', r'<Self as Codec>::Decoder', 'ProstDecoder<U>'),
+         lambda t: t.sub_code('R9', r'Self::Encoder', 'ProstEncoder<T>'), lambda t: t.sub_code('R9', r'Self::Decoder', 'ProstDecoder<U>')]
+    u.fn(P, 'raw_encoder', within='impl<T, U> ProstCodec<T, U>', nth=0, sig_edits=q, display='ProstCodec::raw_encoder', ensures=[Clause('P1_made_with_these_settings', 'r.buffer_settings == buffer_settings')])
+    u.fn(P, 'raw_decoder', within='impl<T, U> ProstCodec<T, U>', nth=0, sig_edits=q, display='ProstCodec::raw_decoder', ensures=[Clause('P1_made_with_these_settings', 'r.buffer_settings == buffer_settings')])
+    u.fn(P, 'encoder', within='impl<T, U> Codec for ProstCodec<T, U>', sig_edits=q, display='ProstCodec::encoder', ensures=[Clause('P2_the_default_encoder_has_sane_settings', 'sane(r.buffer_settings)')])
+    u.fn(P, 'decoder', within='impl<T, U> Codec for ProstCodec<T, U>', sig_edits=q, display='ProstCodec::decoder', ensures=[Clause('P2_the_default_decoder_has_sane_settings', 'sane(r.buffer_settings)')])
     u.close('}')
     return u
